@@ -71,6 +71,12 @@ func genC18(r *Rng, tier string) []Case {
 			conc("sxg_sigheader", []Sx{px, L(B(sxgKeys[0].der)), B([]byte("https://cert.example.org/c")), B([]byte("https://example.com/v")), Zi(baseDate), Zi(baseDate + 100)})
 			shared("sxg", []Sx{px})
 			shared("sxg_headers", []Sx{px})
+			if p == 0 { // an exchange with no response / request header at all (nil maps in the harness)
+				bare := mkExchange(r, ver, exOpts{contentType: false, payloadLen: 10})
+				bare.SignatureHeaderValue = "label;sig=*AA==*"
+				shared("sxg", []Sx{exchangeInSx(bare)})
+				shared("sxg_headers", []Sx{exchangeInSx(bare)})
+			}
 			shared("sxg_message", msg)
 		}
 		se := mkExchange(r, ver, exOpts{contentType: true, extraResp: randExtra(r, 2), payloadLen: 30, uri: "https://example.com/index.html"})
